@@ -187,6 +187,9 @@ pub enum EKind {
     TooLarge,
     TooLong,
     BadChar,
+    /// strict parser only: exactly `capacity` characters followed by a character that is
+    /// neither base64 nor a delimiter; the text is rejected, either kind is accepted
+    BadCharOrTooLong,
     EndOfString,
 }
 #[derive(Clone, Copy, Debug, PartialEq, Eq)]
@@ -198,11 +201,21 @@ pub enum EOrigin {
 #[derive(Clone, Copy, Debug, PartialEq, Eq)]
 pub struct RefErr(pub EKind, pub EOrigin, pub usize);
 
-/// Reference parser for `<block size>:<base64>*:<base64>*[,<anything>]`.
-/// `norm`: capacity is counted after run-collapsing (normalising types, default parser) and the
-/// collapsed symbols are returned; otherwise the raw symbols.  Returns the end index
-/// (the comma or the end of the text).
+/// Is the library under test built with its `strict-parser` feature?
+pub const STRICT: bool = cfg!(feature = "strict-parser");
+
+/// Reference parser of the build under test (default or strict).
 pub fn ref_parse(t: &[u8], cap2: usize, norm: bool) -> Result<(Model, usize), RefErr> {
+    ref_parse_mode(t, cap2, norm, STRICT)
+}
+
+/// Reference parser for `<block size>:<base64>*:<base64>*[,<anything>]`.
+/// `norm`: the collapsed symbols are returned (normalising types), otherwise the raw symbols.
+/// Default parser: the capacity is counted on what is stored (after run-collapsing for the
+/// normalising types).  Strict parser: differs only by rejecting every text whose RAW block
+/// hash is longer than the capacity, whatever the type.  Returns the end index (the comma
+/// or the end of the text).
+pub fn ref_parse_mode(t: &[u8], cap2: usize, norm: bool, strict: bool) -> Result<(Model, usize), RefErr> {
     use EKind::*;
     use EOrigin::*;
     // block size, canonical decimal
@@ -233,10 +246,14 @@ pub fn ref_parse(t: &[u8], cap2: usize, norm: bool) -> Result<(Model, usize), Re
         None => return Err(RefErr(Invalid, BlockSize, 0)),
     };
     i += 1;
-    // a block hash: base64 characters up to a delimiter
-    let block = |mut i: usize, cap: usize, origin: EOrigin| -> Result<(Vec<u8>, usize), RefErr> {
+    // a block hash: base64 characters up to a delimiter; returns symbols, end, raw length
+    let block = |mut i: usize, cap: usize, origin: EOrigin| -> Result<(Vec<u8>, usize, usize), RefErr> {
         let mut out: Vec<u8> = Vec::new();
+        let mut raw = 0usize;
         while let Some(s) = t.get(i).and_then(|&c| b64_index(c)) {
+            if strict && raw == cap {
+                return Err(RefErr(TooLong, origin, i));
+            }
             let n = out.len();
             let dropped = norm && n >= 3 && out[n - 1] == s && out[n - 2] == s && out[n - 3] == s;
             if !dropped {
@@ -245,20 +262,24 @@ pub fn ref_parse(t: &[u8], cap2: usize, norm: bool) -> Result<(Model, usize), Re
                 }
                 out.push(s);
             }
+            raw += 1;
             i += 1;
         }
-        Ok((out, i))
+        Ok((out, i, raw))
     };
-    let (bh1, j) = block(i, 64, BlockHash1)?;
+    let bad = |raw: usize, cap: usize| if strict && raw == cap { BadCharOrTooLong } else { BadChar };
+    let (bh1, j, raw1) = block(i, 64, BlockHash1)?;
     match t.get(j) {
         None => return Err(RefErr(EndOfString, BlockHash1, j)),
         Some(&b':') => {}
-        Some(_) => return Err(RefErr(BadChar, BlockHash1, j)),
+        Some(&b',') => return Err(RefErr(BadChar, BlockHash1, j)),
+        Some(_) => return Err(RefErr(bad(raw1, 64), BlockHash1, j)),
     }
-    let (bh2, k) = block(j + 1, cap2, BlockHash2)?;
+    let (bh2, k, raw2) = block(j + 1, cap2, BlockHash2)?;
     match t.get(k) {
         None | Some(&b',') => Ok((Model { log_bs, bh1, bh2 }, k)),
-        Some(_) => Err(RefErr(BadChar, BlockHash2, k)),
+        Some(&b':') => Err(RefErr(BadChar, BlockHash2, k)),
+        Some(_) => Err(RefErr(bad(raw2, cap2), BlockHash2, k)),
     }
 }
 
